@@ -17,8 +17,10 @@
      deferred curlf.Sync runs before writeToLSM); the records of a request go to the current
      WAL, entries first, then the end marker; with SyncWrites the WAL is msync'ed at the end of
      every request (so at the start of the next request, and at rotation, the WAL is synced).
-   * db.go ensureRoomForWrite / memtable.go newMemTable: rotation only between requests; the new
-     WAL has the next fid; z.OpenMmapFile = Create (size 0) then Init (ftruncate + header).
+   * db.go ensureRoomForWrite / memtable.go newMemTable: rotation only between requests: the full
+     memtable is pushed to flushChan FIRST (PSeal: its WAL gets no more records; the flusher may
+     flush it and record its table before the next WAL even exists), then the new WAL is
+     created with the next fid; z.OpenMmapFile = Create (size 0) then Init (ftruncate + header).
    * db.go handleMemTableFlush / levels.go addLevel0Table: a flush change set is exactly one
      create at level 0 of a table holding the replayed content of the OLDEST unflushed,
      immutable WAL; table.CreateTable msyncs the table before it is added (guard: synced).
@@ -85,13 +87,15 @@ Record pstate := mkP {
   nflushed_s : N;                (* ... as of the last MANIFEST fsync *)
   live : tabs;                   (* MANIFEST table set (current content) *)
   live_s : tabs;                 (* ... as of the last MANIFEST fsync *)
-  usedtabs : list N              (* table ids ever created *)
+  usedtabs : list N;             (* table ids ever created *)
+  sealed : N                     (* WALs with fid <= sealed are immutable: handed to the flusher *)
 }.
 
 Inductive pevent :=
 | PE (e : event)
 | PBegin (cells : list cell)
-| PAck.
+| PAck
+| PSeal.   (* ensureRoomForWrite: the full memtable goes to flushChan; its WAL gets no more records *)
 
 Definition is_nil {A} (l : list A) : bool := match l with [] => true | _ => false end.
 Definition imp (a b : bool) : bool := negb a || b.
@@ -127,7 +131,7 @@ Definition unit_items (cells : list cell) : list item := map IWent cells ++ [IWf
 
 Definition set_fs (st : pstate) (s : fs) : pstate :=
   mkP s (units st) (pend st) (todo st) (acked st) (walcur st) (vlogcur st)
-      (nflushed st) (nflushed_s st) (live st) (live_s st) (usedtabs st).
+      (nflushed st) (nflushed_s st) (live st) (live_s st) (usedtabs st) (sealed st).
 
 Definition creates (cs : list mchange) : list N :=
   flat_map (fun c => match c with MCreate id _ => [id] | _ => [] end) cs.
@@ -142,7 +146,7 @@ Definition pstep (c : cfg) (st : pstate) (pe : pevent) : option pstate :=
   match pe with
   | PBegin cells =>
       let w := Wal (walcur st) in
-      ok (is_nil (todo st) && negb (is_nil cells) && negb (unit_ts cells =? 0)
+      ok (is_nil (todo st) && (sealed st <? walcur st) && negb (is_nil cells) && negb (unit_ts cells =? 0)
           && forallb (fun cl => ce_ver (fst cl) =? unit_ts cells) cells
           && forallb (ptr_ok c s) cells
           && memf w (dir s) && sized s w
@@ -150,11 +154,16 @@ Definition pstep (c : cfg) (st : pstate) (pe : pevent) : option pstate :=
           && imp (fix_dirsync c) (memf w (dur s))
           && forallb (fun u => unit_ts (snd u) <? unit_ts cells) (units st))
          (mkP s (units st) cells (unit_items cells) (acked st) (walcur st) (vlogcur st)
-              (nflushed st) (nflushed_s st) (live st) (live_s st) (usedtabs st))
+              (nflushed st) (nflushed_s st) (live st) (live_s st) (usedtabs st) (sealed st))
   | PAck =>
       ok (is_nil (todo st) && imp (sync_writes c) (log_synced s (Wal (walcur st))))
          (mkP s (units st) (pend st) (todo st) (length (units st)) (walcur st) (vlogcur st)
-              (nflushed st) (nflushed_s st) (live st) (live_s st) (usedtabs st))
+              (nflushed st) (nflushed_s st) (live st) (live_s st) (usedtabs st) (sealed st))
+  | PSeal =>
+      ok (is_nil (todo st) && (sealed st <? walcur st)
+          && imp (sync_writes c) (log_synced s (Wal (walcur st))))
+         (mkP s (units st) (pend st) (todo st) (acked st) (walcur st) (vlogcur st)
+              (nflushed st) (nflushed_s st) (live st) (live_s st) (usedtabs st) (walcur st))
   | PE e =>
       let s' := apply_event s e in
       match e with
@@ -164,27 +173,27 @@ Definition pstep (c : cfg) (st : pstate) (pe : pevent) : option pstate :=
           ok (memf f (dir s) && sized s f)
              (match f with
               | Manifest => mkP s' (units st) (pend st) (todo st) (acked st) (walcur st) (vlogcur st)
-                                (nflushed st) (nflushed st) (live st) (live st) (usedtabs st)
+                                (nflushed st) (nflushed st) (live st) (live st) (usedtabs st) (sealed st)
               | _ => set_fs st s'
               end)
       (* ---- WAL ---- *)
       | Create (Wal f) =>
-          ok ((f =? walcur st + 1) && is_nil (todo st) && negb (memf (Wal f) (dir s))
+          ok ((f =? walcur st + 1) && (sealed st =? walcur st) && is_nil (todo st) && negb (memf (Wal f) (dir s))
               && sized s (Wal (walcur st))
               && imp (sync_writes c) (log_synced s (Wal (walcur st))))
              (mkP s' (units st) (pend st) (todo st) (acked st) f (vlogcur st)
-                  (nflushed st) (nflushed_s st) (live st) (live_s st) (usedtabs st))
+                  (nflushed st) (nflushed_s st) (live st) (live_s st) (usedtabs st) (sealed st))
       | Init (Wal f) =>
-          ok ((f =? walcur st) && memf (Wal f) (dir s) && negb (sized s (Wal f))) (set_fs st s')
+          ok ((f =? walcur st) && (sealed st <? f) && memf (Wal f) (dir s) && negb (sized s (Wal f))) (set_fs st s')
       | Append (Wal f) x =>
           match todo st with
           | y :: rest =>
               ok ((f =? walcur st) && item_eqb x y && memf (Wal f) (dir s) && sized s (Wal f))
                  (match rest with
                   | [] => mkP s' (units st ++ [(walcur st, pend st)]) [] [] (acked st) (walcur st) (vlogcur st)
-                              (nflushed st) (nflushed_s st) (live st) (live_s st) (usedtabs st)
+                              (nflushed st) (nflushed_s st) (live st) (live_s st) (usedtabs st) (sealed st)
                   | _ => mkP s' (units st) (pend st) rest (acked st) (walcur st) (vlogcur st)
-                             (nflushed st) (nflushed_s st) (live st) (live_s st) (usedtabs st)
+                             (nflushed st) (nflushed_s st) (live st) (live_s st) (usedtabs st) (sealed st)
                   end)
           | [] => None
           end
@@ -195,7 +204,7 @@ Definition pstep (c : cfg) (st : pstate) (pe : pevent) : option pstate :=
           ok ((f =? vlogcur st + 1) && negb (memf (Vlog f) (dir s))
               && imp (sync_writes c) (log_synced s (Vlog (vlogcur st))))
              (mkP s' (units st) (pend st) (todo st) (acked st) (walcur st) f
-                  (nflushed st) (nflushed_s st) (live st) (live_s st) (usedtabs st))
+                  (nflushed st) (nflushed_s st) (live st) (live_s st) (usedtabs st) (sealed st))
       | Init (Vlog f) =>
           ok ((f =? vlogcur st) && memf (Vlog f) (dir s) && negb (sized s (Vlog f))) (set_fs st s')
       | Append (Vlog f) (IV _) =>
@@ -205,7 +214,7 @@ Definition pstep (c : cfg) (st : pstate) (pe : pevent) : option pstate :=
       | Create (Sst id) =>
           ok (negb (existsb (N.eqb id) (usedtabs st)) && negb (memf (Sst id) (dir s)))
              (mkP s' (units st) (pend st) (todo st) (acked st) (walcur st) (vlogcur st)
-                  (nflushed st) (nflushed_s st) (live st) (live_s st) (id :: usedtabs st))
+                  (nflushed st) (nflushed_s st) (live st) (live_s st) (id :: usedtabs st) (sealed st))
       | Init (Sst id) =>
           ok (memf (Sst id) (dir s) && negb (sized s (Sst id)) && negb (tab_mem id (live st))
               && negb (tab_mem id (live_s st)) && is_nil (cur s (Sst id))) (set_fs st s')
@@ -230,11 +239,11 @@ Definition pstep (c : cfg) (st : pstate) (pe : pevent) : option pstate :=
                 match cs with
                 | [MCreate id 0] =>
                     let f := nflushed st + 1 in
-                    ok (synced s Manifest && tables_ready && (f <? walcur st)
+                    ok (synced s Manifest && tables_ready && (f <=? sealed st)
                         && same_cells (table_cells (cur s (Sst id))) (wal_cells (cur s (Wal f)))
                         && imp (fix_dirsync c) (memf (Sst id) (dur s)))
                        (mkP s' (units st) (pend st) (todo st) (acked st) (walcur st) (vlogcur st)
-                            f (nflushed_s st) live' (live_s st) (usedtabs st))
+                            f (nflushed_s st) live' (live_s st) (usedtabs st) (sealed st))
                 | _ => None
                 end
               else
@@ -244,7 +253,7 @@ Definition pstep (c : cfg) (st : pstate) (pe : pevent) : option pstate :=
                     && forallb (fun id => negb (tab_mem id (live st))) news
                     && compact_okb (sst_cells s olds) (sst_cells s news))
                    (mkP s' (units st) (pend st) (todo st) (acked st) (walcur st) (vlogcur st)
-                        (nflushed st) (nflushed_s st) live' (live_s st) (usedtabs st))
+                        (nflushed st) (nflushed_s st) live' (live_s st) (usedtabs st) (sealed st))
           end
       | _ => None
       end
@@ -267,7 +276,7 @@ Definition init_fs (c : cfg) : fs :=
        (fun f => match f with Manifest => Some [] | _ => None end)
        (fun f => match f with Manifest | Wal 1 | Vlog 1 => true | _ => false end).
 
-Definition init (c : cfg) : pstate := mkP (init_fs c) [] [] [] 0 1 1 0 0 [] [] [].
+Definition init (c : cfg) : pstate := mkP (init_fs c) [] [] [] 0 1 1 0 0 [] [] [] 0.
 
 (* issued commits in commit order: the completed requests, then the one in progress *)
 Definition done_commits (st : pstate) : list (list centry) := map (fun u => map fst (snd u)) (units st).
